@@ -144,6 +144,14 @@ fn check_string(atoms: &[usize], carrier: Carrier, placement: usize) -> CaseResu
         Carrier::BoxContent => format!("<box xy=\"10 20\" wh=\"30 10\"{extra}>{spelled}</box>"),
         Carrier::PointContent => format!("<point xy=\"10 20\"{extra}>{spelled}</point>"),
     };
+    // Content which is only white space in the source (a blank, a line break between the tags) is layout,
+    // not text: nothing is generated for it (judged on the source spelling: an escaped \n is text)
+    let layout_only = match carrier {
+        Carrier::Content | Carrier::TextElContent | Carrier::BoxContent | Carrier::PointContent | Carrier::ContentComment => spelled.trim().is_empty(),
+        Carrier::CData => spelled.trim().is_empty(),
+        Carrier::ContentMixed => format!("{}{}", spell(&atoms[..half], false, false), spell(&atoms[half..], true, false)).trim().is_empty(),
+        _ => false,
+    };
     let doc = format!("<svg><var v=\"V&amp;\"/>{el}</svg>");
     let names: Vec<&str> = atoms.iter().map(|a| ATOMS[*a].name).collect();
     let case = json!({"leg": "strings", "atoms": names, "carrier": format!("{carrier:?}"), "placement": placement, "input": doc, "expected_text": expect});
@@ -167,6 +175,14 @@ fn check_string(atoms: &[usize], carrier: Carrier, placement: usize) -> CaseResu
             oh = hash64(b);
             match xmlref::parse_tree(b, Mode::Document) {
                 Err(e) => mk("output-ill-formed", format!("{e}\n{}", clip(&String::from_utf8_lossy(b), 500))),
+                Ok(tree) if layout_only => {
+                    ok = true;
+                    match last_text(&tree) {
+                        None => {}
+                        Some(t) if matches!(carrier, Carrier::TextElContent) && text_nodes(t).1.trim().is_empty() => {}
+                        Some(_) => mk("text-generated-for-layout-white-space", clip(&String::from_utf8_lossy(b), 500)),
+                    }
+                }
                 Ok(tree) => match last_text(&tree) {
                     None => mk("no-text-element", clip(&String::from_utf8_lossy(b), 500)),
                     Some(t) => {
